@@ -30,6 +30,12 @@ impl RepeStruct for Rec {
         Ok(Some(json!({"struct": self.0, "segments": segments, "body": body})))
     }
 }
+struct Adder;
+impl repe::server::JsonTypedHandler for Adder {
+    type In = In;
+    type Out = In;
+    fn call(&self, input: In) -> Result<In, (ErrorCode, String)> { Ok(In { a: input.a + 4 }) }
+}
 struct Mw(u64);
 impl Middleware for Mw {
     fn handle(&self, req: &Message, next: Next<'_>) -> Result<Message, RepeError> {
@@ -236,6 +242,10 @@ pub fn random(a: &Args) -> i32 {
             .with_typed_slice::<f64, f64, _>("/slice", |xs: Vec<f64>| Ok(xs))
             .with_typed_slice_ref::<f64, f64, _>("/sliceref", |xs: &[f64]| Ok(xs.to_vec()))
             .with_json_blocking("/blocking", |v| Ok(json!({"b": v})))
+            .with_typed_ctx::<In, In, _>("/typedctx", |_c: &repe::CallContext, x: In| -> Result<In, (ErrorCode, String)> { Ok(In { a: x.a + 2 }) })
+            .with_typed_ctx_blocking::<In, In, _>("/typedctxb", |_c: &repe::CallContext, x: In| -> Result<In, (ErrorCode, String)> { Ok(In { a: x.a + 3 }) })
+            .with_handler("/handler", Adder)
+            .with_struct_shared::<Rec, std::sync::Mutex<Rec>>("/sts", Arc::new(std::sync::Mutex::new(Rec(4))))
             .with_registry("/reg", reg)
             .with_struct("/st", Rec(3))
             .0;
@@ -245,7 +255,7 @@ pub fn random(a: &Args) -> i32 {
         r
     };
     let (r_plain, r_mw) = (build(false), build(true));
-    let paths = ["/json", "/jsonerr", "/typed", "/ctx", "/slice", "/sliceref", "/blocking", "/reg/v", "/reg/f", "/reg/none", "/st/a/b", "/st"];
+    let paths = ["/json", "/jsonerr", "/typed", "/ctx", "/slice", "/sliceref", "/blocking", "/typedctx", "/typedctxb", "/handler", "/sts/x", "/reg/v", "/reg/f", "/reg/none", "/st/a/b", "/st"];
     let mut bodies: Vec<(String, Vec<u8>)> = vec![
         ("empty".into(), vec![]), ("json-obj".into(), br#"{"a":5}"#.to_vec()), ("json-num".into(), b"7".to_vec()), ("json-trunc".into(), br#"{"a":"#.to_vec()), ("text".into(), b"hello".to_vec()),
         ("beve-obj".into(), beve::to_vec(&json!({"a": 5})).unwrap()), ("beve-f64s".into(), Message::builder().body_typed_slice(&[1.5f64, 2.5]).build().body),
